@@ -1142,7 +1142,8 @@ class FileSet:
             if self.file_system.isfile(self.path):
                 file_info = self.get_info(self.path)
                 if IntervalTree.interval_overlaps(
-                        file_info.times, (start, end)):
+                        file_info.times, (start, end)) \
+                        and not self.is_excluded(file_info):
                     yield file_info
                 elif no_files_error:
                     raise NoFilesError(self, start, end)
